@@ -27,6 +27,22 @@ example : TEq { acct := cput (cput (cput [] [1] [7]) [2] [8]) [1] [9] } { acct :
   · subst h1; simp
   · by_cases h2 : ([2] : Bytes) = k <;> simp [h1, h2]
 
+
+/-- Content level: folding a set of writes with distinct keys into a store gives the same content — hence
+(`roots_content_only`) the same root — in any order. -/
+theorem writes_order_independent (P : Prim) (c : Content) (l₁ l₂ : List (Bytes × Bytes)) (hp : l₁.Perm l₂)
+    (hn : (l₁.map (·.1)).Nodup) :
+    CEq (writeAll c l₁) (writeAll c l₂) ∧ P.root (norm (writeAll c l₁)) = P.root (norm (writeAll c l₂)) :=
+  ⟨writeAll_perm c l₁ l₂ hp hn, by rw [norm_ext (writeAll_perm c l₁ l₂ hp hn)]⟩
+
+/-- writes to distinct keys commute, and for one key the last write wins -/
+theorem writes_commute_last_wins (c : Content) (k₁ v₁ k₂ v₂ : Bytes) :
+    (k₁ ≠ k₂ → CEq (cput (cput c k₁ v₁) k₂ v₂) (cput (cput c k₂ v₂) k₁ v₁)) ∧ CEq (cput (cput c k₁ v₁) k₁ v₂) (cput c k₁ v₂) :=
+  ⟨cput_comm c k₁ v₁ k₂ v₂, cput_last_wins c k₁ v₁ v₂⟩
+
+/-- test (non-vacuity of the distinct-keys hypothesis) -/
+example : (([([1], [7]), ([2], [8])] : List (Bytes × Bytes)).map (·.1)).Nodup := by decide
+
 /-! ## 2. the flush does not depend on the iteration order of the dirty sets (Go maps) -/
 
 /-- IntermediateRoot iterates `journal.dirties`, `stateObjectsPending`, `validatorObjectsDirty` and
